@@ -276,7 +276,7 @@ fn check_arc_sector(ctx: &mut Ctx, tl: Point, d: u32, start: f32, sweep: f32) {
                 continue 'shapes;
             }
             if !want && has {
-                ctx.violation(format!("{}|point-outside-sweep-included{}", name, if w == 0.0 && dist_point_ray(s + 180.0, dx, dy) <= 0.75 { "|zero-sweep-draws-opposite-radius" } else { "" }), case, || format!("{:?} (angle {:.2} deg) is outside the sweep and more than 1.5 px from both radial boundaries", p, theta));
+                ctx.violation(format!("{}|point-outside-sweep-included{}", name, if w.abs() < 1.0 && dist_point_ray(s + 180.0, dx, dy) <= 1.0 { "|sweep-below-1-degree-draws-opposite-radius" } else { "" }), case, || format!("{:?} (angle {:.2} deg) is outside the sweep and more than 1.5 px from both radial boundaries", p, theta));
                 continue 'shapes;
             }
         }
